@@ -14,7 +14,8 @@ RULE = ("graphs of <= 16 nodes from shape classes (chain, in-tree, wide fan-out,
         "startpoint for startpoints, an endpoint for endpoints) and with node lists; per graph a batch of queries: fanin/fanout/transitive_fanin/"
         "transitive_fanout/startpoints/endpoints on single nodes, node lists and the whole circuit, both depth functions on single nodes and "
         "lists, topo_sort, levelize, is_cyclic, reconvergent_fanout_nodes, kcuts(n, k) for k in 0..4 on acyclic graphs; non-trivial = at "
-        "least 3 nodes and 2 edges; distinct = canonical input hash")
+        "least 3 nodes and 2 edges; distinct = canonical input hash; plus query-edit-query histories on one Circuit object (a cycle closed by "
+        "connect, opened by disconnect / remove, up to three phases, queries shuffled), every answer judged against the graph dumped at that call")
 EXPLANATION = ("executable definitions proved equal to the path-based definitions (tfi/tfo, depth table, cycle test, topological checker, "
                "reconvergence, k-cut width and separation); models tied to circuit.py / props.levelize by correspondence on every shape class")
 SHARD = 40
@@ -170,6 +171,43 @@ def pick_args(rng, names):
     return ns[0] if len(ns) == 1 and rng.random() < 0.6 else ns       # a str or a list
 
 
+def make_queries(rng, nodes, cyclic, kcuts=True, light=False):
+    """a batch of queries for the graph given by dump rows `nodes`; `light` = the short batch used inside histories"""
+    names = [x[0] for x in nodes]
+    qs = []
+    # cyclic graphs are in the property's domain for is_cyclic and the rejection by the depth functions / levelize / topo_sort only
+    # (networkx ancestors(G, n) never contains n itself, so on a cycle it is not the set of proper ancestors)
+
+    def a_str(pool=None):
+        """a single node passed by NAME (str, not wrapped in a list); prefers multi-character names"""
+        pool = [x for x in (pool or names)] or names
+        longer = [x for x in pool if len(x) > 1]
+        return rng.choice(longer) if longer and rng.random() < 0.8 else rng.choice(pool)
+    sps = [x[0] for x in nodes if x[1] in ("input", "bb_output")]
+    eps = [x[0] for x in nodes if x[2] or x[1] == "bb_input"]
+    for fn in ("fanin", "fanout") + (() if cyclic else ("transitive_fanin", "transitive_fanout")):
+        qs.append([fn, a_str()])
+        if not light:
+            qs.append([fn, pick_args(rng, names)])
+    if not cyclic and not light:
+        qs.append(["startpoints", a_str(sps)])            # the node itself is a startpoint
+        qs.append(["startpoints", a_str()])
+        qs.append(["startpoints", rng.choice([None, [], pick_args(rng, names)])])
+        qs.append(["endpoints", a_str(eps)])              # the node itself is an endpoint
+        qs.append(["endpoints", a_str()])
+        qs.append(["endpoints", rng.choice([None, [], pick_args(rng, names)])])
+    for fn in ("fanin_depth", "fanout_depth"):
+        qs.append([fn, a_str()])
+        qs.append([fn, pick_args(rng, names)])
+    qs += [["topo_sort"], ["levelize"], ["is_cyclic"]] + ([] if cyclic else [["reconvergent"]])
+    if kcuts and not cyclic and not light and len(names) <= 13:
+        for _ in range(2):
+            qs.append(["kcuts", rng.choice(names), rng.choice([0, 1, 2, 2, 3, 3, 4])])
+    if light:
+        rng.shuffle(qs)            # which query meets the edited graph first must not matter
+    return qs
+
+
 def gen_case(rng):
     r = rng.random()
     if r < 0.2:
@@ -184,37 +222,79 @@ def gen_case(rng):
     if cyclic:
         e = make_cyclic(rng, n, e)
     d = to_dump(rng, n, e, flop=(not cyclic and rng.random() < 0.15))
-    names = [x[0] for x in d["nodes"]]
-    qs = []
-    # cyclic graphs are in the property's domain for is_cyclic and the rejection by the depth functions / levelize / topo_sort only
-    # (networkx ancestors(G, n) never contains n itself, so on a cycle it is not the set of proper ancestors)
-    by_len = sorted(names, key=len, reverse=True)
-
-    def a_str(pool=None):
-        """a single node passed by NAME (str, not wrapped in a list); prefers multi-character names"""
-        pool = [x for x in (pool or names)] or names
-        longer = [x for x in pool if len(x) > 1]
-        return rng.choice(longer) if longer and rng.random() < 0.8 else rng.choice(pool)
-    sps = [x[0] for x in d["nodes"] if x[1] in ("input", "bb_output")]
-    eps = [x[0] for x in d["nodes"] if x[2] or x[1] == "bb_input"]
-    for fn in ("fanin", "fanout") + (() if cyclic else ("transitive_fanin", "transitive_fanout")):
-        qs.append([fn, a_str()])
-        qs.append([fn, pick_args(rng, names)])
-    if not cyclic:
-        qs.append(["startpoints", a_str(sps)])            # the node itself is a startpoint
-        qs.append(["startpoints", a_str()])
-        qs.append(["startpoints", rng.choice([None, [], pick_args(rng, names)])])
-        qs.append(["endpoints", a_str(eps)])              # the node itself is an endpoint
-        qs.append(["endpoints", a_str()])
-        qs.append(["endpoints", rng.choice([None, [], pick_args(rng, names)])])
-    for fn in ("fanin_depth", "fanout_depth"):
-        qs.append([fn, a_str()])
-        qs.append([fn, pick_args(rng, names)])
-    qs += [["topo_sort"], ["levelize"], ["is_cyclic"]] + ([] if cyclic else [["reconvergent"]])
-    if not cyclic and len(names) <= 13:
-        for _ in range(2):
-            qs.append(["kcuts", rng.choice(names), rng.choice([0, 1, 2, 2, 3, 3, 4])])
+    qs = make_queries(rng, d["nodes"], cyclic)
     return {"circuit": d, "queries": qs, "shape": shape + ("+cycle" if cyclic else "")}
+
+
+def descendants(nodes, s):
+    fo = {}
+    for n in nodes:
+        for f in n[3]:
+            fo.setdefault(f, []).append(n[0])
+    seen, todo = set(), [s]
+    while todo:
+        x = todo.pop()
+        for y in fo.get(x, []):
+            if y not in seen:
+                seen.add(y); todo.append(y)
+    return seen
+
+
+def gen_history(rng):
+    """query - edit - query on ONE Circuit object: a cycle is closed by connect or opened by disconnect / remove between query
+    batches; every answer is judged against the graph as it is at that call"""
+    for _ in range(50):
+        f = rng.choice([chain, in_tree, wide_fanout, diamond, nested_diamond, branch_is_meeting, ladder, random_dag, random_dag])
+        n, e = f(rng)
+        if n < 3 or n > 12:
+            continue
+        d = to_dump(rng, n, e)
+        nodes = d["nodes"]
+        cand = []
+        for g in nodes:
+            if g[1] in lib.MULTI:
+                ds = sorted(x for x in descendants(nodes, g[0]))
+                if ds:
+                    cand.append((g, ds))
+        if cand:
+            break
+    else:
+        return gen_case(rng)
+    g, ds = rng.choice(cand)
+    x = rng.choice(ds)                      # back edge x -> g closes a cycle g ->* x -> g
+    by = {r[0]: r for r in nodes}
+
+    def with_edge(rows):
+        rows = json.loads(json.dumps(rows))
+        for r in rows:
+            if r[0] == g[0]:
+                r[3] = sorted(set(r[3]) | {x})
+        return rows
+
+    def without(rows, v):
+        return [[r[0], r[1], r[2], [f for f in r[3] if f != v]] for r in json.loads(json.dumps(rows)) if r[0] != v]
+    mode = rng.choice(["open_by_disconnect", "open_by_remove", "close_by_connect", "close_then_open"])
+    phases = []
+    if mode in ("open_by_disconnect", "open_by_remove"):
+        start = with_edge(nodes)
+        phases.append({"edit": None, "queries": make_queries(rng, start, True, light=True)})
+        if mode == "open_by_disconnect":
+            phases.append({"edit": ["disconnect", x, g[0]], "queries": make_queries(rng, nodes, False, light=True)})
+        else:
+            v = rng.choice([x, g[0]])
+            phases.append({"edit": ["remove", v], "queries": make_queries(rng, without(start, v), False, light=True)})
+        if rng.random() < 0.4 and mode == "open_by_disconnect":
+            phases.append({"edit": ["connect", x, g[0]], "queries": make_queries(rng, start, True, light=True)})
+    else:
+        start = nodes
+        phases.append({"edit": None, "queries": make_queries(rng, nodes, False, light=True)})
+        phases.append({"edit": ["connect", x, g[0]], "queries": make_queries(rng, with_edge(nodes), True, light=True)})
+        if mode == "close_then_open":
+            if rng.random() < 0.5:
+                phases.append({"edit": ["disconnect", x, g[0]], "queries": make_queries(rng, nodes, False, light=True)})
+            else:
+                phases.append({"edit": ["remove", x], "queries": make_queries(rng, without(nodes, x), False, light=True)})
+    return {"circuit": {"name": "top", "nodes": start, "bbs": []}, "phases": phases, "shape": "history:" + mode}
 
 
 def handmade():
@@ -233,7 +313,7 @@ def handmade():
 
 def generate(rng, tier):
     n = 150 if tier == "quick" else 1000
-    return handmade() + [gen_case(rng) for _ in range(n)]
+    return handmade() + [gen_case(rng) for _ in range(n)] + [gen_history(rng) for _ in range(n // 3)]
 
 
 # ------------------------------------------------------------------ implementation driver
@@ -241,12 +321,11 @@ def _exc(e):
     return {"exc": type(e).__name__}
 
 
-def impl(case):
+def run_queries(c, queries):
     import circuitgraph as cg
-    c = lib.build_circuit(case["circuit"])
     ords = [[n, list(c.fanin(n))] for n in c.graph if c.fanin(n)]
     res = []
-    for q in case["queries"]:
+    for q in queries:
         fn = q[0]
         try:
             if fn in ("fanin", "fanout", "transitive_fanin", "transitive_fanout", "startpoints", "endpoints"):
@@ -277,6 +356,30 @@ def impl(case):
     return {"ords": ords, "res": res}
 
 
+def impl(case):
+    c = lib.build_circuit(case["circuit"])
+    if "phases" not in case:
+        return run_queries(c, case["queries"])
+    out = []
+    for ph in case["phases"]:
+        ed = ph["edit"]
+        if ed is not None:
+            try:
+                if ed[0] == "disconnect":
+                    c.disconnect(ed[1], ed[2])
+                elif ed[0] == "connect":
+                    c.connect(ed[1], ed[2])
+                elif ed[0] == "remove":
+                    c.remove(ed[1])
+            except Exception as e:          # an edit the API rejects ends the history (earlier phases still count)
+                out.append({"edit_exc": type(e).__name__})
+                break
+        o = run_queries(c, ph["queries"])
+        o["graph"] = lib.dump_circuit(c)["nodes"]      # the graph as it is at these calls
+        out.append(o)
+    return {"phases": out}
+
+
 EXN = ("ValueError", "KeyError", "IndexError", "StopIteration", "NotImplementedError")
 
 
@@ -298,9 +401,9 @@ CTOR = {"fanin": "QFanin", "fanout": "QFanout", "transitive_fanin": "QTfi", "tra
         "startpoints": "QStart", "endpoints": "QEnd"}
 
 
-def to_coq(case, obs):
+def cqueries(queries, obs):
     qs = []
-    for q, r in zip(case["queries"], obs["res"]):
+    for q, r in zip(queries, obs["res"]):
         fn = q[0]
         if fn in CTOR:
             if "exc" in r:                      # no exception is expected on existing nodes: fails agree and holds
@@ -323,25 +426,45 @@ def to_coq(case, obs):
             qs.append(f"QReconv {csl(r['set'])}")
         elif fn == "kcuts":
             qs.append(f"QKcuts {cs(q[1])} {cnat(q[2])} {cpairs(obs['ords'], cs, csl)} {cres(r, 'cuts', lambda cc: cl(csl(x) for x in cc))}")
-    return f"CQ {cnodes(case['circuit']['nodes'])} {cl(qs)}"
+    return cl(qs)
+
+
+def to_coq(case, obs):
+    if "phases" not in case:
+        return f"CQ {cnodes(case['circuit']['nodes'])} {cqueries(case['queries'], obs)}"
+    parts = []
+    for ph, o in zip(case["phases"], obs["phases"]):
+        if "edit_exc" in o:
+            break
+        parts.append(f"({cnodes(o['graph'])},{cqueries(ph['queries'], o)})")
+    return f"CH {cl(parts)}" if parts else None
 
 
 def nontrivial(case, obs):
     nodes = case["circuit"]["nodes"]
+    if "phases" in case and len([o for o in obs["phases"] if "res" in o]) < 2:
+        return False
     return len(nodes) >= 3 and sum(len(n[3]) for n in nodes) >= 2
 
 
 def classify(case, obs):
     k = ["shape:" + case.get("shape", "?")]
-    for q, r in zip(case["queries"], obs["res"]):
-        tag = q[0] + (":exc:" + r["exc"] if "exc" in r else "")
-        if q[0] == "reconvergent" and "set" in r:
-            tag += ":some" if r["set"] else ":none"
-        if q[0] == "kcuts":
-            tag = f"kcuts:k={q[2]}"
-        if q[0] in CTOR:
-            tag += ":str" if isinstance(q[1], str) else ":whole" if not q[1] else ":list"
-        k.append(tag)
+    if "phases" in case:
+        batches = [(ph["queries"], o["res"]) for ph, o in zip(case["phases"], obs["phases"]) if "res" in o]
+        k += ["history:edit:" + ph["edit"][0] for ph in case["phases"] if ph["edit"]]
+        k += ["history:edit-rejected:" + o["edit_exc"] for o in obs["phases"] if "edit_exc" in o]
+    else:
+        batches = [(case["queries"], obs["res"])]
+    for queries, res in batches:
+        for q, r in zip(queries, res):
+            tag = q[0] + (":exc:" + r["exc"] if "exc" in r else "")
+            if q[0] == "reconvergent" and "set" in r:
+                tag += ":some" if r["set"] else ":none"
+            if q[0] == "kcuts":
+                tag = f"kcuts:k={q[2]}"
+            if q[0] in CTOR:
+                tag += ":str" if isinstance(q[1], str) else ":whole" if not q[1] else ":list"
+            k.append(tag)
     if case["circuit"]["bbs"]:
         k.append("blackbox")
     return sorted(set(k))
